@@ -33,6 +33,11 @@ func init() {
 		Doc: "GET#1 registered; GET#2 handler || an early ListRoots (abandoned once GET#2 is up) || the client drops stream #1; afterwards stream #2 must be open, registered and reachable"})
 	RegisterScenario(&Scenario{Name: "c11/client-reopen", Run: func(p []int, m []vsched.ChoicePoint) explore.Outcome { return c11ClientReopen(p) },
 		Doc: "library client: stream #1's reader is inside a slow notification handler; Close; Initialize again; the handler returns; later sends must reach the client"})
+	for _, m := range []string{"send", "roots"} {
+		m := m
+		RegisterScenario(&Scenario{Name: "c11/resume-" + m, Run: func(p []int, _ []vsched.ChoicePoint) explore.Outcome { return c11Run(p, "resume-"+m) },
+			Doc: "as reopen-" + m + ", the new stream being opened with Last-Event-ID (a resuming client); Write/Flush on a ResponseWriter are non-atomic, concurrent use is reported"})
+	}
 	RegisterScenario(&Scenario{Name: "c11/triple", Run: func(p []int, m []vsched.ChoicePoint) explore.Outcome { return c11Run(p, "triple") },
 		Doc: "GET#1 registered; GET#2 || GET#3 opened concurrently; sends at quiescence must reach the surviving stream"})
 	RegisterCheck("C11", func(c *Ctx) {
@@ -43,6 +48,8 @@ func init() {
 		c.DFSBoth("c11/reopen-send", explore.Bounds{Preempt: pb, Dev: 2}, 2)
 		c.DFSBoth("c11/reopen-roots", explore.Bounds{Preempt: pb, Dev: 2}, 1)
 		c.DFSBoth("c11/reopen-close1", explore.Bounds{Preempt: pb, Dev: 2}, 1)
+		c.DFSBoth("c11/resume-send", explore.Bounds{Preempt: pb, Dev: 1, MaxExec: c.Pick(8000, 300000)}, 1)
+		c.DFSBoth("c11/resume-roots", explore.Bounds{Preempt: pb, Dev: 1, MaxExec: c.Pick(8000, 300000)}, 1)
 		c.DFSBoth("c11/triple", explore.Bounds{Preempt: c.Pick(3, 5), Dev: 1}, 1)
 		c.DFSBoth("c11/straddle", explore.Bounds{Preempt: c.Pick(3, 5), Dev: 1}, 1)
 		c.DFSBoth("c11/straddle-stalled", explore.Bounds{Preempt: c.Pick(3, 5), Dev: 1}, 1)
@@ -155,6 +162,15 @@ func findNote(frames []string, n int) int {
 func c11Run(prefix []int, mode string) explore.Outcome {
 	var viol []explore.Violation
 	obs := &hx.Log{}
+	// resume-*: the new stream is opened the way a reconnecting client opens it, with the id of the
+	// last event it saw (Last-Event-ID); the server's own greeting on the resumed stream and the sends
+	// addressed to the session then meet on one ResponseWriter, whose concurrent use is reported
+	var get2Hdr map[string]string
+	if strings.HasPrefix(mode, "resume-") {
+		mode = strings.TrimPrefix(mode, "resume-")
+		get2Hdr = map[string]string{"Last-Event-ID": "evt-1-1"}
+		defer nonAtomicWriters()()
+	}
 	res := vsched.Run(cfgFor(prefix), func() {
 		vsched.SetBranching(false)
 		srv := mcp.NewServer("s", "1", mcp.WithServerLogger(hx.Nop{}))
@@ -179,7 +195,7 @@ func c11Run(prefix []int, mode string) explore.Outcome {
 		var roots *mcp.ListRootsResult
 		sent := &hx.Flag{}
 		vsched.Go("get2", func() {
-			_, x, err := peer.Open(context.Background(), http.MethodGet, peer.URL, sid, nil, nil)
+			_, x, err := peer.Open(context.Background(), http.MethodGet, peer.URL, sid, nil, get2Hdr)
 			if err != nil {
 				obs.Add("get2-err:%v", err)
 			}
